@@ -161,6 +161,11 @@ bool Exec<Cfg>::run_real(Op const& op) {
 							// the value type of a view over a fancy pointer must live in storage of that pointer's default allocator
 							using DT = decltype(csv.decay());
 							if(!std::is_same_v<typename std::allocator_traits<typename DT::allocator_type>::pointer, P>) fail("PTR-decay-type", "decay() of a view over the fancy pointer yields an array over another pointer type (pointer_traits::default_allocator_type is not honoured)");
+							// the same for a view over the pointer-to-const of the family (array_ref over ptr<T const>)
+							using CP  = typename std::pointer_traits<P>::template rebind<E const>;
+							using DTc = std::decay_t<decltype(std::declval<multi::array_ref<E, D, CP>&>().decay())>;
+							if(!std::is_same_v<typename std::allocator_traits<typename DTc::allocator_type>::pointer, P>)
+								fail("PTR-decay-type", "decay() of a view over the fancy pointer-to-const yields an array over another pointer type (pointer_traits::default_allocator_type is not honoured)");
 						}
 						OpScope s;
 						if(op.var == 0) new(raw) Arr<D>(csv.decay());
@@ -453,7 +458,16 @@ bool Exec<Cfg>::run_real(Op const& op) {
 			OpScope s;
 			if(op.var == 0) read_brackets<ET>(cv, got, ok);
 			else if(op.var == 1) read_elements<ET>(cv, got, ok);
-			else read_iterators<ET>(cv, got, ok);
+			else if(op.var == 2) read_iterators<ET>(cv, got, ok);
+			else if constexpr(std::is_same_v<E, Triv>) {
+				if(op.var == 3) {
+					auto&& rv = v.template reinterpret_array_cast<i64>();
+					read_i64(rv, got);
+				} else {
+					auto&& rv = v.template reinterpret_array_cast<i64>(1);  // one more dimension of extent sizeof(E)/sizeof(i64) = 1
+					read_i64(rv, got);
+				}
+			}
 		});
 		if(handled && !W.violated() && mv.count() > 0) {
 			if(!ok) fail("LIFE-use-of-dead", "a view reads an element that is not alive");
@@ -464,8 +478,19 @@ bool Exec<Cfg>::run_real(Op const& op) {
 		handled = with_dim(op.da, [&](auto Dc) {
 			constexpr int D = decltype(Dc)::value;
 			Arr<D>&       a = pool<D>().at(op.a);
-			Arr<D>&       b = pool<D>().at(op.b);
 			multi::array_ref<E, D, P> ra(a.data_elements(), a.extensions());
+			if(op.var >= 4) {
+				using CE = typename ET::conv;
+				std::vector<CE, hallocator<CE>> src;
+				src.reserve(static_cast<std::size_t>(a.num_elements()));
+				for(long k = 0; k < static_cast<long>(a.num_elements()); ++k) src.push_back(ET::make_conv(op.v + k));
+				multi::array_ref<CE, D> const rc(src.data(), a.extensions());
+				OpScope s;
+				if(op.var == 4) std::move(ra) = rc;
+				else ra = rc;
+				return;
+			}
+			Arr<D>&       b = pool<D>().at(op.b);
 			multi::array_ref<E, D, P> rb(b.data_elements(), b.extensions());
 			OpScope s;
 			switch(op.var) {
